@@ -1,28 +1,177 @@
 //! C15 accessor table.  One `Row` per getter/setter pair of the lossless typed views, one `ReadRow`
 //! per getter-on-raw-text reading.  Field names are written from Debian Policy / deb822 man pages /
-//! the accessor's doc comment -- NOT copied from the accessor's body.
+//! DEP-3 / DEP-5 / the apt repository format / the accessor's doc comment -- NOT copied from the
+//! accessor's body.
 //!
 //! Conventions: `run(doc_text, vi)` builds the view over `doc_text`, calls the setter with value
 //! number `vi` of the row's menu (vi == n_values means "clear" when has_clear), and reports the
 //! printed document, `format!("{:?}", getter())` and the Debug rendering of the value that was set
 //! in the getter's return type.  `get(doc_text)` builds the view and returns `format!("{:?}", getter())`.
+//!
+//! How the views are built (each view macro names an `open` and a `print` function):
+//!  * control::Source / Binary: `Control::from_str`, `source()` / `binaries().next()`, printed through Control.
+//!  * rows whose field IS the field the view is found by (control Source.name, Binary.name, apt
+//!    Source.package, apt Package.name, dep3 description): the view is built with the public
+//!    `From<Paragraph>` / `new(Paragraph)` constructor over the paragraph that holds the row's base
+//!    field, so that "field absent before" exists as a prior state and the engine can still locate
+//!    the paragraph.  These rows have another `base` and are therefore sequenced only among themselves.
+//!  * apt Source / Package / Release, Buildinfo: they expose neither their paragraph nor Display; the
+//!    view is built with `From<Paragraph>` / `new(Paragraph)` over the first paragraph of a `Deb822`
+//!    (which is what their FromStr does) and the Deb822 is printed (the edits are in place in the shared tree).
+//!  * Changes: only `Changes::read` builds one and nothing gives the text back; the document is read
+//!    through the wrapped paragraph (see `changes_text`).
+//!  * copyright: `Copyright::from_str` only accepts a text starting with "Format:"; Files paragraphs
+//!    are tested in a document that gets a fixed header paragraph in front (removed again from the
+//!    printed text; if it changed, the whole text is reported so the engine sees an extra paragraph).
+//!  * dep3: `PatchHeader::from_str`; printed through the root of `as_deb822()`.
+//!
+//! Types without Debug (Relations renders its syntax tree, Url its parts) are rendered through
+//! to_string() on both sides.  HashMaps are rendered as sorted vectors.
 
 use crate::props::c15::{Obs, ReadRow, Row};
-use debian_control::lossless::control::Control;
+use deb822_lossless::{Deb822, Paragraph};
+use debian_control::fields::{Md5Checksum, MultiArch, Priority, Sha1Checksum, Sha256Checksum, Sha512Checksum};
+use debian_control::lossless::apt;
+use debian_control::lossless::buildinfo::Buildinfo;
+use debian_control::lossless::changes::Changes;
+use debian_control::lossless::control::{Binary, Control, Source};
+use debian_control::lossless::relations::Relations;
+use debian_copyright::lossless::{Copyright, FilesParagraph, Header};
+use debian_copyright::License;
+use dep3::lossless::PatchHeader;
+use dep3::{AppliedUpstream, Forwarded, Origin, OriginCategory};
+use rowan::ast::AstNode;
 use std::str::FromStr;
 
-// ---- control::Source ------------------------------------------------------------------------------
+// ---- building and printing the views ---------------------------------------------------------------
 
 fn control(text: &str) -> Result<Control, String> {
     Control::from_str(text).map_err(|e| e.to_string())
 }
+fn deb822(text: &str) -> Result<Deb822, String> {
+    Deb822::from_str(text).map_err(|e| e.to_string().replace('\n', "; "))
+}
+/// the paragraph that holds field `name`
+fn para_with(d: &Deb822, name: &str) -> Result<Paragraph, String> {
+    d.paragraphs().find(|p| p.keys().any(|k| k == name)).ok_or_else(|| format!("no paragraph with a {} field", name))
+}
+fn first_para(d: &Deb822) -> Result<Paragraph, String> {
+    d.paragraphs().next().ok_or_else(|| "no paragraph".to_string())
+}
+/// the text of the whole document a paragraph lives in
+fn root_text(p: &Paragraph) -> String {
+    p.syntax().ancestors().last().map(|n| n.text().to_string()).unwrap_or_default()
+}
+fn rel(s: &str) -> Relations {
+    s.parse().unwrap()
+}
 
-macro_rules! control_source_row {
-    ($accessor:literal, $field:literal, $prior:literal, clear = $clear:literal, values = [$($val:expr),+],
-     set = |$s:ident, $v:ident| $set:expr, clear_set = |$cs:ident| $cset:expr, get = |$g:ident| $get:expr, want = |$w:ident| $want:expr) => {{
+fn print_control<V>(c: &Control, _v: &V) -> String {
+    c.to_string()
+}
+fn print_deb822<V>(d: &Deb822, _v: &V) -> String {
+    d.to_string()
+}
+
+fn open_csrc(doc: &str) -> Result<(Control, Source), String> {
+    let c = control(doc)?;
+    let s = c.source().ok_or("no source paragraph")?;
+    Ok((c, s))
+}
+fn open_cbin(doc: &str) -> Result<(Control, Binary), String> {
+    let c = control(doc)?;
+    let b = c.binaries().next().ok_or("no binary paragraph")?;
+    Ok((c, b))
+}
+/// control::Source over the paragraph holding "Maintainer" (for the row that writes "Source")
+fn open_csrc_para(doc: &str) -> Result<(Deb822, Source), String> {
+    let d = deb822(doc)?;
+    let p = para_with(&d, "Maintainer")?;
+    Ok((d, Source::from(p)))
+}
+/// control::Binary over the paragraph holding "Architecture" (for the row that writes "Package")
+fn open_cbin_para(doc: &str) -> Result<(Deb822, Binary), String> {
+    let d = deb822(doc)?;
+    let p = para_with(&d, "Architecture")?;
+    Ok((d, Binary::from(p)))
+}
+fn open_asrc(doc: &str) -> Result<(Deb822, apt::Source), String> {
+    let d = deb822(doc)?;
+    let p = first_para(&d)?;
+    Ok((d, apt::Source::from(p)))
+}
+fn open_apkg(doc: &str) -> Result<(Deb822, apt::Package), String> {
+    let d = deb822(doc)?;
+    let p = first_para(&d)?;
+    Ok((d, apt::Package::new(p)))
+}
+fn open_arel(doc: &str) -> Result<(Deb822, apt::Release), String> {
+    let d = deb822(doc)?;
+    let p = first_para(&d)?;
+    Ok((d, apt::Release::new(p)))
+}
+fn open_binfo(doc: &str) -> Result<(Deb822, Buildinfo), String> {
+    let d = deb822(doc)?;
+    let p = first_para(&d)?;
+    Ok((d, Buildinfo::from(p)))
+}
+fn open_changes(doc: &str) -> Result<((), Changes), String> {
+    Ok(((), Changes::read(doc.as_bytes()).map_err(|e| e.to_string().replace('\n', "; "))?))
+}
+/// `Changes` is `pub struct Changes(Paragraph)` with no accessor for the paragraph, no Display and no
+/// From<Paragraph>; the only way to see the text after `set_format` is to look at the wrapped
+/// paragraph.  A struct with a single field of the same size has that field at offset 0.
+fn changes_text(_d: &(), c: &Changes) -> String {
+    assert_eq!(std::mem::size_of::<Changes>(), std::mem::size_of::<Paragraph>());
+    assert_eq!(std::mem::align_of::<Changes>(), std::mem::align_of::<Paragraph>());
+    let p: &Paragraph = unsafe { &*(c as *const Changes as *const Paragraph) };
+    root_text(p)
+}
+
+const CFORMAT: &str = "Format: https://www.debian.org/doc/packaging-manuals/copyright-format/1.0/\n";
+const CPREFIX: &str = "Format: https://www.debian.org/doc/packaging-manuals/copyright-format/1.0/\n\n";
+
+fn copyright(text: &str) -> Result<Copyright, String> {
+    Copyright::from_str(text).map_err(|e| e.to_string().replace('\n', "; "))
+}
+fn open_chdr(doc: &str) -> Result<(Copyright, Header), String> {
+    let c = copyright(doc)?;
+    let h = c.header().ok_or("no header paragraph")?;
+    Ok((c, h))
+}
+fn print_copyright<V>(c: &Copyright, _v: &V) -> String {
+    c.to_string()
+}
+/// Files paragraph of `CPREFIX + doc`
+fn open_cfiles(doc: &str) -> Result<(Copyright, FilesParagraph), String> {
+    let c = copyright(&format!("{}{}", CPREFIX, doc))?;
+    let f = c.iter_files().next().ok_or("no files paragraph")?;
+    Ok((c, f))
+}
+fn print_copyright_unprefixed<V>(c: &Copyright, _v: &V) -> String {
+    let t = c.to_string();
+    match t.strip_prefix(CPREFIX) {
+        Some(rest) => rest.to_string(),
+        None => t,
+    }
+}
+fn open_dep3(doc: &str) -> Result<((), PatchHeader), String> {
+    Ok(((), PatchHeader::from_str(doc).map_err(|e| e.to_string().replace('\n', "; "))?))
+}
+fn print_dep3(_d: &(), h: &PatchHeader) -> String {
+    root_text(h.as_deb822())
+}
+
+// ---- the row macro ------------------------------------------------------------------------------------
+
+macro_rules! row {
+    (view = $view:literal, open = $open:path, print = $print:path, base = $base:expr, sibling = $sib:expr, skip = $skip:expr,
+     $accessor:literal, $field:literal, $prior:literal, clear = $clear:literal, values = [$($val:expr),+],
+     set = |$s:ident, $v:ident| $set:expr, clear_set = |$cs:ident| $cset:expr, clear_want = $cw:expr,
+     get = |$g:ident| $get:expr, want = |$w:ident| $want:expr) => {{
+        #[allow(unused_mut, unused_variables)]
         fn run(doc: &str, vi: usize) -> Result<Obs, String> {
-            let c = control(doc)?;
-            let mut $s = c.source().ok_or("no source paragraph")?;
+            let (d, mut $s) = $open(doc)?;
             let vals = vec![$($val),+];
             let want: String;
             if vi < vals.len() {
@@ -34,61 +183,927 @@ macro_rules! control_source_row {
                 $set;
             } else {
                 let $cs = &mut $s;
-                want = "None".to_string();
+                want = $cw.to_string();
                 $cset;
             }
-            let $g = &$s;
-            let got = format!("{:?}", $get);
-            Ok(Obs { after: c.as_deb822().to_string(), got, want })
+            let got = {
+                let $g = &$s;
+                format!("{:?}", $get)
+            };
+            Ok(Obs { after: $print(&d, &$s), got, want })
         }
         fn get(doc: &str) -> Result<String, String> {
-            let c = control(doc)?;
-            let s = c.source().ok_or("no source paragraph")?;
+            let (_d, s) = $open(doc)?;
             let $g = &s;
             Ok(format!("{:?}", $get))
         }
         Row {
-            view: "control::Source",
+            view: $view,
             accessor: $accessor,
             field: $field,
-            base: "Source: foo\n",
-            sibling: Some("Package: other\n"),
+            base: $base,
+            sibling: $sib,
             prior_raw: $prior,
             n_values: [$(stringify!($val)),+].len(),
             has_clear: $clear,
+            skip_priors: $skip,
             run,
             get,
         }
     }};
 }
 
+// per-view macros: fix view name, constructor, printer, base, sibling
+macro_rules! csrc { ($($t:tt)*) => { row!(view = "control::Source", open = open_csrc, print = print_control,
+    base = "Source: foo\n", sibling = Some("Package: other\n"), skip = &[], $($t)*) }; }
+macro_rules! csrc_para { ($($t:tt)*) => { row!(view = "control::Source", open = open_csrc_para, print = print_deb822,
+    base = "Maintainer: A <a@example.com>\n", sibling = Some("Package: other\n"), skip = &[], $($t)*) }; }
+macro_rules! cbin { ($($t:tt)*) => { row!(view = "control::Binary", open = open_cbin, print = print_control,
+    base = "Package: foo\n", sibling = Some("Source: src\n"), skip = &[], $($t)*) }; }
+macro_rules! cbin_para { ($($t:tt)*) => { row!(view = "control::Binary", open = open_cbin_para, print = print_deb822,
+    base = "Architecture: any\n", sibling = Some("Source: src\n"), skip = &[], $($t)*) }; }
+macro_rules! asrc { ($($t:tt)*) => { row!(view = "apt::Source", open = open_asrc, print = print_deb822,
+    base = "Package: foo\n", sibling = None, skip = &[], $($t)*) }; }
+macro_rules! asrc_alt { ($($t:tt)*) => { row!(view = "apt::Source", open = open_asrc, print = print_deb822,
+    base = "Directory: pool/main/f/foo\n", sibling = None, skip = &[], $($t)*) }; }
+macro_rules! apkg { ($($t:tt)*) => { row!(view = "apt::Package", open = open_apkg, print = print_deb822,
+    base = "Package: foo\n", sibling = None, skip = &[], $($t)*) }; }
+macro_rules! apkg_alt { ($($t:tt)*) => { row!(view = "apt::Package", open = open_apkg, print = print_deb822,
+    base = "Filename: pool/main/f/foo/foo_1_all.deb\n", sibling = None, skip = &[], $($t)*) }; }
+macro_rules! arel { ($($t:tt)*) => { row!(view = "apt::Release", open = open_arel, print = print_deb822,
+    base = "Archive: x\n", sibling = None, skip = &[], $($t)*) }; }
+macro_rules! chg { ($($t:tt)*) => { row!(view = "changes::Changes", open = open_changes, print = changes_text,
+    base = "Source: foo\n", sibling = None, skip = &[], $($t)*) }; }
+macro_rules! binfo { ($($t:tt)*) => { row!(view = "buildinfo::Buildinfo", open = open_binfo, print = print_deb822,
+    base = "Build-Kernel-Version: 6.1\n", sibling = None, skip = &[], $($t)*) }; }
+// a header paragraph is the first paragraph of a text starting with "Format:": priors 3 (a field
+// before the base) and 4 (a paragraph before it) cannot exist
+macro_rules! chdr { ($($t:tt)*) => { row!(view = "copyright::Header", open = open_chdr, print = print_copyright,
+    base = CFORMAT, sibling = Some("Files: *\nCopyright: c\nLicense: MIT\n"), skip = &[3, 4], $($t)*) }; }
+macro_rules! cfiles { ($($t:tt)*) => { row!(view = "copyright::FilesParagraph", open = open_cfiles, print = print_copyright_unprefixed,
+    base = "Files: *\n", sibling = Some("License: MIT\n The MIT text\n"), skip = &[], $($t)*) }; }
+macro_rules! d3 { ($($t:tt)*) => { row!(view = "dep3::PatchHeader", open = open_dep3, print = print_dep3,
+    base = "Description: x\n", sibling = None, skip = &[], $($t)*) }; }
+macro_rules! d3_alt { ($($t:tt)*) => { row!(view = "dep3::PatchHeader", open = open_dep3, print = print_dep3,
+    base = "Author: A <a@example.com>\n", sibling = None, skip = &[], $($t)*) }; }
+
+// per-shape macros ($m is a view macro)
+/// setter takes &str, getter returns Option<String>
+macro_rules! str_row { ($m:ident, $acc:literal, $field:literal, $prior:literal, [$($v:literal),+], $set:ident, $get:ident) => {
+    $m!($acc, $field, $prior, clear = false, values = [$($v.to_string()),+],
+        set = |s, x| s.$set(&x), clear_set = |_s| (), clear_want = "None", get = |s| s.$get(), want = |x| Some(x)) }; }
+/// setter takes Option<&str>, getter returns Option<String>
+macro_rules! optstr_row { ($m:ident, $acc:literal, $field:literal, $prior:literal, [$($v:literal),+], $set:ident, $get:ident) => {
+    $m!($acc, $field, $prior, clear = true, values = [$($v.to_string()),+],
+        set = |s, x| s.$set(Some(&x)), clear_set = |s| s.$set(None), clear_want = "None", get = |s| s.$get(), want = |x| Some(x)) }; }
+/// setter takes Relations by value, getter returns Option<Relations>
+macro_rules! rel_row { ($m:ident, $acc:literal, $field:literal, $set:ident, $get:ident) => {
+    $m!($acc, $field, "old (>= 1)", clear = false,
+        values = ["debhelper (>= 9), foo | bar".to_string(), "a".to_string(), "".to_string()],
+        set = |s, x| s.$set(rel(&x)), clear_set = |_s| (), clear_want = "None",
+        get = |s| s.$get().map(|r| r.to_string()), want = |x| Some(x)) }; }
+/// setter takes Option<&Relations>, getter returns Option<Relations>
+macro_rules! optrel_row { ($m:ident, $acc:literal, $field:literal, $set:ident, $get:ident) => {
+    $m!($acc, $field, "old (>= 1)", clear = true,
+        values = ["libc6 (>= 2.36), foo | bar".to_string(), "a".to_string(), "".to_string()],
+        set = |s, x| s.$set(Some(&rel(&x))), clear_set = |s| s.$set(None), clear_want = "None",
+        get = |s| s.$get().map(|r| r.to_string()), want = |x| Some(x)) }; }
+/// setter takes Vec<String>, getter returns Option<Vec<String>>
+macro_rules! strvec_row { ($m:ident, $acc:literal, $field:literal, $prior:literal, [$a:literal, $b:literal], $set:ident, $get:ident) => {
+    $m!($acc, $field, $prior, clear = false,
+        values = [vec![$a.to_string(), $b.to_string()], vec![$a.to_string()]],
+        set = |s, x| s.$set(x), clear_set = |_s| (), clear_want = "None", get = |s| s.$get(), want = |x| Some(x)) }; }
+/// setter takes Vec<checksum>, getter returns Vec<checksum>
+macro_rules! cksum_row { ($m:ident, $acc:literal, $field:literal, $ty:ident, $hash:ident, $set:ident, $get:ident) => {
+    $m!($acc, $field, "0000 7 old.dsc", clear = false,
+        values = [vec![$ty { $hash: "d41d8cd9".to_string(), size: 1234, filename: "foo_1.0.dsc".to_string() },
+                       $ty { $hash: "900150983c".to_string(), size: 5, filename: "foo_1.0.tar.xz".to_string() }],
+                  vec![$ty { $hash: "abc".to_string(), size: 0, filename: "x".to_string() }],
+                  Vec::<$ty>::new()],
+        set = |s, x| s.$set(x), clear_set = |_s| (), clear_want = "[]", get = |s| s.$get(), want = |x| x) }; }
+
 pub fn rows() -> Vec<Row> {
     let mut v = vec![];
-    v.push(control_source_row!("standards_version", "Standards-Version", "3.9.8", clear = false,
-        values = ["4.6.0".to_string(), "4.7.0.1".to_string()],
-        set = |s, x| s.set_standards_version(&x), clear_set = |_s| (), get = |s| s.standards_version(), want = |x| Some(x)));
-    v.push(control_source_row!("section", "Section", "net", clear = true,
-        values = ["libs".to_string(), "contrib/utils".to_string()],
-        set = |s, x| s.set_section(Some(&x)), clear_set = |s| s.set_section(None), get = |s| s.section(), want = |x| Some(x)));
-    v.push(control_source_row!("priority", "Priority", "extra", clear = true,
-        values = [debian_control::fields::Priority::Optional, debian_control::fields::Priority::Required],
-        set = |s, x| s.set_priority(Some(x)), clear_set = |s| s.set_priority(None), get = |s| s.priority(), want = |x| Some(x)));
-    v.push(control_source_row!("build_depends", "Build-Depends", "old (>= 1)", clear = false,
-        values = ["debhelper (>= 9), foo | bar".to_string(), "a".to_string()],
-        set = |s, x| s.set_build_depends(&x.parse().unwrap()), clear_set = |_s| (),
-        get = |s| s.build_depends().map(|r| r.to_string()), want = |x| Some(x)));
+    v.extend(rows_control_source());
+    v.extend(rows_control_binary());
+    v.extend(rows_apt_source());
+    v.extend(rows_apt_package());
+    v.extend(rows_apt_release());
+    v.extend(rows_changes_buildinfo());
+    v.extend(rows_copyright());
+    v.extend(rows_dep3());
     v
 }
 
 pub fn read_rows() -> Vec<ReadRow> {
-    fn source_name(doc: &str) -> Result<String, String> {
-        let c = control(doc)?;
-        Ok(format!("{:?}", c.source().and_then(|s| s.name())))
+    let mut v = vec![];
+    v.extend(read_control());
+    v.extend(read_apt());
+    v.extend(read_changes_buildinfo());
+    v.extend(read_copyright());
+    v.extend(read_dep3());
+    v
+}
+
+macro_rules! read_row {
+    ($view:literal, $acc:literal, |$d:ident| $body:expr, [$($case:expr),+ $(,)?]) => {{
+        fn get($d: &str) -> Result<String, String> {
+            Ok(format!("{:?}", $body))
+        }
+        ReadRow { view: $view, accessor: $acc, cases: &[$($case),+], get }
+    }};
+}
+
+// ---- control::Source (debian/control source paragraph; Policy 5.2, 5.6) -----------------------------
+
+fn rows_control_source() -> Vec<Row> {
+    let mut v = vec![];
+    // writes the field the view is found by: built over a bare paragraph (see module doc)
+    v.push(str_row!(csrc_para, "name", "Source", "oldsrc", ["hello", "lib-x2"], set_name, name));
+    v.push(optstr_row!(csrc, "section", "Section", "net", ["libs", "contrib/utils"], set_section, section));
+    v.push(csrc!("priority", "Priority", "extra", clear = true,
+        values = [Priority::Optional, Priority::Required],
+        set = |s, x| s.set_priority(Some(x)), clear_set = |s| s.set_priority(None), clear_want = "None",
+        get = |s| s.priority(), want = |x| Some(x)));
+    // the base of csrc_para holds Maintainer, so this row uses the ordinary view
+    v.push(str_row!(csrc, "maintainer", "Maintainer", "Old <old@example.com>", ["A B <ab@example.com>", "Team X <team@lists.example.org>"], set_maintainer, maintainer));
+    v.push(csrc!("build_depends", "Build-Depends", "old (>= 1)", clear = false,
+        values = ["debhelper (>= 9), foo | bar".to_string(), "a".to_string(), "".to_string()],
+        set = |s, x| s.set_build_depends(&rel(&x)), clear_set = |_s| (), clear_want = "None",
+        get = |s| s.build_depends().map(|r| r.to_string()), want = |x| Some(x)));
+    v.push(str_row!(csrc, "standards_version", "Standards-Version", "3.9.8", ["4.6.0", "4.7.0.1"], set_standards_version, standards_version));
+    v.push(csrc!("homepage", "Homepage", "http://old.example.net/", clear = false,
+        values = ["https://example.com/".to_string(), "https://example.org/path?q=1".to_string()],
+        set = |s, x| s.set_homepage(&x.parse::<url::Url>().unwrap()), clear_set = |_s| (), clear_want = "None",
+        get = |s| s.homepage().map(|u| u.to_string()), want = |x| Some(x)));
+    v.push(str_row!(csrc, "vcs_git", "Vcs-Git", "https://old.example.com/r.git", ["https://salsa.debian.org/foo/bar.git", "https://example.com/r.git -b debian/sid"], set_vcs_git, vcs_git));
+    v.push(str_row!(csrc, "vcs_svn", "Vcs-Svn", "svn://old.example.com/r", ["svn://svn.example.com/foo/trunk", "https://example.com/svn/r"], set_vcs_svn, vcs_svn));
+    v.push(str_row!(csrc, "vcs_bzr", "Vcs-Bzr", "lp:old", ["https://code.launchpad.net/foo", "lp:foo"], set_vcs_bzr, vcs_bzr));
+    v.push(str_row!(csrc, "vcs_arch", "Vcs-Arch", "http://old.example.com/arch", ["http://arch.example.com/foo", "http://example.com/a"], set_vcs_arch, vcs_arch));
+    v.push(str_row!(csrc, "vcs_svk", "Vcs-Svk", "http://old.example.com/svk", ["http://svk.example.com/foo", "http://example.com/s"], set_vcs_svk, vcs_svk));
+    v.push(str_row!(csrc, "vcs_darcs", "Vcs-Darcs", "http://old.example.com/darcs", ["http://darcs.example.com/foo", "http://example.com/d"], set_vcs_darcs, vcs_darcs));
+    v.push(str_row!(csrc, "vcs_mtn", "Vcs-Mtn", "old.example.com org.old", ["mtn.example.com org.example.foo", "example.com b"], set_vcs_mtn, vcs_mtn));
+    v.push(str_row!(csrc, "vcs_cvs", "Vcs-Cvs", ":pserver:anon@old.example.com:/cvs old", [":pserver:anonymous@cvs.example.com:/cvs foo", ":ext:example.com:/c"], set_vcs_cvs, vcs_cvs));
+    v.push(str_row!(csrc, "vcs_hg", "Vcs-Hg", "https://old.example.com/hg", ["https://hg.example.com/foo", "https://example.com/h"], set_vcs_hg, vcs_hg));
+    v.push(optstr_row!(csrc, "vcs_browser", "Vcs-Browser", "https://old.example.com/browse", ["https://salsa.debian.org/foo/bar", "https://example.com/b"], set_vcs_browser, vcs_browser));
+    v.push(csrc!("uploaders", "Uploaders", "Old <old@example.com>", clear = false,
+        values = [vec!["A <a@example.com>".to_string(), "B <b@example.com>".to_string()], vec!["C <c@example.com>".to_string()]],
+        set = |s, x| s.set_uploaders(&x.iter().map(|u| u.as_str()).collect::<Vec<_>>()), clear_set = |_s| (), clear_want = "None",
+        get = |s| s.uploaders(), want = |x| Some(x)));
+    v.push(optstr_row!(csrc, "architecture", "Architecture", "i386", ["any", "linux-any all"], set_architecture, architecture));
+    // a valid prior value that is neither yes nor no exists (Policy 5.6.31): binary-targets
+    v.push(csrc!("rules_requires_root", "Rules-Requires-Root", "binary-targets", clear = false,
+        values = [false, true],
+        set = |s, x| s.set_rules_requires_root(x), clear_set = |_s| (), clear_want = "None",
+        get = |s| s.rules_requires_root(), want = |x| Some(x)));
+    v.push(str_row!(csrc, "testsuite", "Testsuite", "autopkgtest-pkg-perl", ["autopkgtest", "autopkgtest-pkg-python"], set_testsuite, testsuite));
+    v
+}
+
+// ---- control::Binary (debian/control binary paragraph; Policy 5.2, 5.6, 7) ----------------------------
+
+fn rows_control_binary() -> Vec<Row> {
+    let mut v = vec![];
+    v.push(str_row!(cbin_para, "name", "Package", "oldpkg", ["hello", "libx2-dev"], set_name, name));
+    v.push(optstr_row!(cbin, "section", "Section", "net", ["libs", "contrib/utils"], set_section, section));
+    v.push(cbin!("priority", "Priority", "extra", clear = true,
+        values = [Priority::Optional, Priority::Important],
+        set = |s, x| s.set_priority(Some(x)), clear_set = |s| s.set_priority(None), clear_want = "None",
+        get = |s| s.priority(), want = |x| Some(x)));
+    v.push(optstr_row!(cbin, "architecture", "Architecture", "i386", ["any", "amd64 arm64"], set_architecture, architecture));
+    v.push(optrel_row!(cbin, "depends", "Depends", set_depends, depends));
+    v.push(optrel_row!(cbin, "recommends", "Recommends", set_recommends, recommends));
+    v.push(optrel_row!(cbin, "suggests", "Suggests", set_suggests, suggests));
+    v.push(optrel_row!(cbin, "enhances", "Enhances", set_enhances, enhances));
+    v.push(optrel_row!(cbin, "pre_depends", "Pre-Depends", set_pre_depends, pre_depends));
+    v.push(optrel_row!(cbin, "breaks", "Breaks", set_breaks, breaks));
+    v.push(optrel_row!(cbin, "conflicts", "Conflicts", set_conflicts, conflicts));
+    v.push(optrel_row!(cbin, "replaces", "Replaces", set_replaces, replaces));
+    v.push(optrel_row!(cbin, "provides", "Provides", set_provides, provides));
+    v.push(optrel_row!(cbin, "built_using", "Built-Using", set_built_using, built_using));
+    // MultiArch is not Clone: the menu holds the spelling
+    v.push(cbin!("multi_arch", "Multi-Arch", "allowed", clear = true,
+        values = ["same".to_string(), "foreign".to_string(), "no".to_string()],
+        set = |s, x| s.set_multi_arch(Some(x.parse::<MultiArch>().unwrap())), clear_set = |s| s.set_multi_arch(None), clear_want = "None",
+        get = |s| s.multi_arch(), want = |x| Some(x.parse::<MultiArch>().unwrap())));
+    // set_essential(false) is the clearing call of this bool accessor (Policy 5.6.9: absent == no);
+    // the only raw value other than the one written is "no"
+    v.push(cbin!("essential", "Essential", "no", clear = true,
+        values = [true],
+        set = |s, x| s.set_essential(x), clear_set = |s| s.set_essential(false), clear_want = "false",
+        get = |s| s.essential(), want = |x| x));
+    v.push(optstr_row!(cbin, "description", "Description", "old short\nold long text", ["a short description", "short line\nlong text line 1\n.\nlong text line 2"], set_description, description));
+    v.push(cbin!("homepage", "Homepage", "http://old.example.net/", clear = false,
+        values = ["https://example.com/".to_string(), "https://example.org/path?q=1".to_string()],
+        set = |s, x| s.set_homepage(&x.parse::<url::Url>().unwrap()), clear_set = |_s| (), clear_want = "None",
+        get = |s| s.homepage().map(|u| u.to_string()), want = |x| Some(x)));
+    v
+}
+
+// ---- apt::Source (a stanza of an apt Sources index; field names as in .dsc / Sources files) -----------
+
+fn rows_apt_source() -> Vec<Row> {
+    let mut v = vec![];
+    // the default base is "Package: foo": this row needs another one
+    v.push(str_row!(asrc_alt, "package", "Package", "oldsrc", ["hello", "lib-x2"], set_package, package));
+    v.push(asrc!("version", "Version", "0.9-1", clear = false,
+        values = ["1.0-1".to_string(), "2:3.4~rc1-2+b1".to_string()],
+        set = |s, x| s.set_version(x.parse::<debversion::Version>().unwrap()), clear_set = |_s| (), clear_want = "None",
+        get = |s| s.version().map(|x| x.to_string()), want = |x| Some(x)));
+    v.push(str_row!(asrc, "maintainer", "Maintainer", "Old <old@example.com>", ["A B <ab@example.com>", "Team X <team@lists.example.org>"], set_maintainer, maintainer));
+    v.push(strvec_row!(asrc, "uploaders", "Uploaders", "Old <old@example.com>", ["A <a@example.com>", "B <b@example.com>"], set_uploaders, uploaders));
+    v.push(str_row!(asrc, "standards_version", "Standards-Version", "3.9.8", ["4.6.0", "4.7.0.1"], set_standards_version, standards_version));
+    v.push(str_row!(asrc, "format", "Format", "1.0", ["3.0 (quilt)", "3.0 (native)"], set_format, format));
+    v.push(str_row!(asrc, "vcs_browser", "Vcs-Browser", "https://old.example.com/browse", ["https://salsa.debian.org/foo/bar", "https://example.com/b"], set_vcs_browser, vcs_browser));
+    v.push(str_row!(asrc, "vcs_git", "Vcs-Git", "https://old.example.com/r.git", ["https://salsa.debian.org/foo/bar.git", "https://example.com/r.git -b debian/sid"], set_vcs_git, vcs_git));
+    v.push(str_row!(asrc, "vcs_svn", "Vcs-Svn", "svn://old.example.com/r", ["svn://svn.example.com/foo/trunk", "https://example.com/svn/r"], set_vcs_svn, vcs_svn));
+    v.push(str_row!(asrc, "vcs_hg", "Vcs-Hg", "https://old.example.com/hg", ["https://hg.example.com/foo", "https://example.com/h"], set_vcs_hg, vcs_hg));
+    v.push(str_row!(asrc, "vcs_bzr", "Vcs-Bzr", "lp:old", ["https://code.launchpad.net/foo", "lp:foo"], set_vcs_bzr, vcs_bzr));
+    v.push(str_row!(asrc, "vcs_arch", "Vcs-Arch", "http://old.example.com/arch", ["http://arch.example.com/foo", "http://example.com/a"], set_vcs_arch, vcs_arch));
+    v.push(str_row!(asrc, "vcs_svk", "Vcs-Svk", "http://old.example.com/svk", ["http://svk.example.com/foo", "http://example.com/s"], set_vcs_svk, vcs_svk));
+    v.push(str_row!(asrc, "vcs_darcs", "Vcs-Darcs", "http://old.example.com/darcs", ["http://darcs.example.com/foo", "http://example.com/d"], set_vcs_darcs, vcs_darcs));
+    v.push(str_row!(asrc, "vcs_mtn", "Vcs-Mtn", "old.example.com org.old", ["mtn.example.com org.example.foo", "example.com b"], set_vcs_mtn, vcs_mtn));
+    v.push(str_row!(asrc, "vcs_cvs", "Vcs-Cvs", ":pserver:anon@old.example.com:/cvs old", [":pserver:anonymous@cvs.example.com:/cvs foo", ":ext:example.com:/c"], set_vcs_cvs, vcs_cvs));
+    v.push(rel_row!(asrc, "build_depends", "Build-Depends", set_build_depends, build_depends));
+    v.push(rel_row!(asrc, "build_depends_indep", "Build-Depends-Indep", set_build_depends_indep, build_depends_indep));
+    v.push(rel_row!(asrc, "build_depends_arch", "Build-Depends-Arch", set_build_depends_arch, build_depends_arch));
+    v.push(rel_row!(asrc, "build_conflicts", "Build-Conflicts", set_build_conflicts, build_conflicts));
+    v.push(rel_row!(asrc, "build_conflicts_indep", "Build-Conflicts-Indep", set_build_conflicts_indep, build_conflicts_indep));
+    v.push(rel_row!(asrc, "build_conflicts_arch", "Build-Conflicts-Arch", set_build_conflicts_arch, build_conflicts_arch));
+    // Binary is a comma-separated list of package names, held as Relations
+    v.push(asrc!("binary", "Binary", "oldbin", clear = false,
+        values = ["foo, libfoo1, libfoo-dev".to_string(), "foo".to_string(), "".to_string()],
+        set = |s, x| s.set_binary(rel(&x)), clear_set = |_s| (), clear_want = "None",
+        get = |s| s.binary().map(|r| r.to_string()), want = |x| Some(x)));
+    v.push(str_row!(asrc, "homepage", "Homepage", "http://old.example.net/", ["https://example.com/", "https://example.org/path?q=1"], set_homepage, homepage));
+    v.push(str_row!(asrc, "section", "Section", "net", ["libs", "contrib/utils"], set_section, section));
+    v.push(asrc!("priority", "Priority", "extra", clear = false,
+        values = [Priority::Optional, Priority::Standard],
+        set = |s, x| s.set_priority(x), clear_set = |_s| (), clear_want = "None",
+        get = |s| s.priority(), want = |x| Some(x)));
+    v.push(str_row!(asrc, "architecture", "Architecture", "i386", ["any", "any all"], set_architecture, architecture));
+    v.push(str_row!(asrc, "directory", "Directory", "pool/main/o/old", ["pool/main/f/foo", "pool/contrib/libf/libfoo"], set_directory, directory));
+    v.push(str_row!(asrc, "testsuite", "Testsuite", "autopkgtest-pkg-perl", ["autopkgtest", "autopkgtest-pkg-python"], set_testsuite, testsuite));
+    v.push(cksum_row!(asrc, "files", "Files", Md5Checksum, md5sum, set_files, files));
+    v.push(cksum_row!(asrc, "checksums_sha1", "Checksums-Sha1", Sha1Checksum, sha1, set_checksums_sha1, checksums_sha1));
+    v.push(cksum_row!(asrc, "checksums_sha256", "Checksums-Sha256", Sha256Checksum, sha256, set_checksums_sha256, checksums_sha256));
+    v.push(cksum_row!(asrc, "checksums_sha512", "Checksums-Sha512", Sha512Checksum, sha512, set_checksums_sha512, checksums_sha512));
+    v
+}
+
+// ---- apt::Package (a stanza of an apt Packages index) ---------------------------------------------------
+
+fn rows_apt_package() -> Vec<Row> {
+    let mut v = vec![];
+    v.push(str_row!(apkg_alt, "name", "Package", "oldpkg", ["hello", "libx2-dev"], set_name, name));
+    v.push(apkg!("version", "Version", "0.9-1", clear = false,
+        values = ["1.0-1".to_string(), "2:3.4~rc1-2+b1".to_string()],
+        set = |s, x| s.set_version(x.parse::<debversion::Version>().unwrap()), clear_set = |_s| (), clear_want = "None",
+        get = |s| s.version().map(|x| x.to_string()), want = |x| Some(x)));
+    v.push(apkg!("installed_size", "Installed-Size", "77", clear = false,
+        values = [0usize, 123456usize],
+        set = |s, x| s.set_installed_size(x), clear_set = |_s| (), clear_want = "None",
+        get = |s| s.installed_size(), want = |x| Some(x)));
+    v.push(str_row!(apkg, "maintainer", "Maintainer", "Old <old@example.com>", ["A B <ab@example.com>", "Team X <team@lists.example.org>"], set_maintainer, maintainer));
+    v.push(str_row!(apkg, "architecture", "Architecture", "i386", ["amd64", "all"], set_architecture, architecture));
+    v.push(rel_row!(apkg, "depends", "Depends", set_depends, depends));
+    v.push(rel_row!(apkg, "recommends", "Recommends", set_recommends, recommends));
+    v.push(rel_row!(apkg, "suggests", "Suggests", set_suggests, suggests));
+    v.push(rel_row!(apkg, "enhances", "Enhances", set_enhances, enhances));
+    v.push(rel_row!(apkg, "pre_depends", "Pre-Depends", set_pre_depends, pre_depends));
+    v.push(rel_row!(apkg, "breaks", "Breaks", set_breaks, breaks));
+    v.push(rel_row!(apkg, "conflicts", "Conflicts", set_conflicts, conflicts));
+    v.push(rel_row!(apkg, "replaces", "Replaces", set_replaces, replaces));
+    v.push(rel_row!(apkg, "provides", "Provides", set_provides, provides));
+    v.push(str_row!(apkg, "section", "Section", "net", ["libs", "contrib/utils"], set_section, section));
+    v.push(apkg!("priority", "Priority", "extra", clear = false,
+        values = [Priority::Optional, Priority::Standard],
+        set = |s, x| s.set_priority(x), clear_set = |_s| (), clear_want = "None",
+        get = |s| s.priority(), want = |x| Some(x)));
+    v.push(str_row!(apkg, "description", "Description", "old short\nold long text", ["a short description", "short line\nlong text line 1\n.\nlong text line 2"], set_description, description));
+    v.push(apkg!("homepage", "Homepage", "http://old.example.net/", clear = false,
+        values = ["https://example.com/".to_string(), "https://example.org/path?q=1".to_string()],
+        set = |s, x| s.set_homepage(&x.parse::<url::Url>().unwrap()), clear_set = |_s| (), clear_want = "None",
+        get = |s| s.homepage().map(|u| u.to_string()), want = |x| Some(x)));
+    v.push(str_row!(apkg, "source", "Source", "oldsrc", ["hello", "hello (1.0-1)"], set_source, source));
+    v.push(str_row!(apkg, "description_md5", "Description-md5", "00000000000000000000000000000000", ["d41d8cd98f00b204e9800998ecf8427e", "900150983cd24fb0d6963f7d28e17f72"], set_description_md5, description_md5));
+    // tags(name)/set_tags(name, ..) take the field name; the Packages field for debtags is "Tag"
+    v.push(apkg!("tags(\"Tag\")", "Tag", "role::old", clear = false,
+        values = [vec!["role::program".to_string(), "uitoolkit::gtk".to_string()], vec!["role::shared-lib".to_string()]],
+        set = |s, x| s.set_tags("Tag", x), clear_set = |_s| (), clear_want = "None",
+        get = |s| s.tags("Tag"), want = |x| Some(x)));
+    // the default base of apkg_alt holds Filename, so this row uses the ordinary view
+    v.push(str_row!(apkg, "filename", "Filename", "pool/main/o/old/old_1_all.deb", ["pool/main/f/foo/foo_1.0-1_amd64.deb", "pool/x.deb"], set_filename, filename));
+    v.push(apkg!("size", "Size", "77", clear = false,
+        values = [0usize, 123456usize],
+        set = |s, x| s.set_size(x), clear_set = |_s| (), clear_want = "None",
+        get = |s| s.size(), want = |x| Some(x)));
+    v.push(str_row!(apkg, "md5sum", "MD5sum", "00000000000000000000000000000000", ["d41d8cd98f00b204e9800998ecf8427e", "900150983cd24fb0d6963f7d28e17f72"], set_md5sum, md5sum));
+    v.push(str_row!(apkg, "sha256", "SHA256", "0000", ["e3b0c44298fc1c149afbf4c8996fb92427ae41e4649b934ca495991b7852b855", "ba7816bf"], set_sha256, sha256));
+    v.push(apkg!("multi_arch", "Multi-Arch", "allowed", clear = false,
+        values = ["same".to_string(), "foreign".to_string(), "no".to_string()],
+        set = |s, x| s.set_multi_arch(x.parse::<MultiArch>().unwrap()), clear_set = |_s| (), clear_want = "None",
+        get = |s| s.multi_arch(), want = |x| Some(x.parse::<MultiArch>().unwrap())));
+    v
+}
+
+// ---- apt::Release (field names as in https://wiki.debian.org/DebianRepository/Format) -------------------
+
+fn rows_apt_release() -> Vec<Row> {
+    fn date(s: &str) -> chrono::DateTime<chrono::FixedOffset> {
+        chrono::DateTime::parse_from_rfc3339(s).unwrap()
     }
-    vec![ReadRow {
-        view: "control::Control",
-        accessor: "source().name()",
-        cases: &[("Package: a\n\nSource: foo\nSection: x\n", "Some(\"foo\")"), ("Package: a\n", "None")],
-        get: source_name,
-    }]
+    let mut v = vec![];
+    v.push(str_row!(arel, "origin", "Origin", "Old", ["Debian", "Example Org"], set_origin, origin));
+    v.push(str_row!(arel, "label", "Label", "Old", ["Debian", "Debian-Security"], set_label, label));
+    v.push(str_row!(arel, "suite", "Suite", "oldstable", ["stable", "unstable"], set_suite, suite));
+    v.push(str_row!(arel, "codename", "Codename", "buster", ["bookworm", "sid"], set_codename, codename));
+    v.push(strvec_row!(arel, "changelogs", "Changelogs", "https://old.example.com/changelogs/@CHANGEPATH@",
+        ["https://metadata.ftp-master.debian.org/changelogs/@CHANGEPATH@_changelog", "https://example.com/c/@CHANGEPATH@"], set_changelogs, changelogs));
+    v.push(arel!("date", "Date", "Mon, 01 Jan 2001 00:00:00 +0000", clear = false,
+        values = [date("2024-03-09T10:11:12+00:00"), date("2025-12-31T23:59:59+00:00")],
+        set = |s, x| s.set_date(x), clear_set = |_s| (), clear_want = "None",
+        get = |s| s.date(), want = |x| Some(x)));
+    v.push(arel!("valid_until", "Valid-Until", "Mon, 01 Jan 2001 00:00:00 +0000", clear = false,
+        values = [date("2024-03-16T10:11:12+00:00"), date("2026-01-07T23:59:59+00:00")],
+        set = |s, x| s.set_valid_until(x), clear_set = |_s| (), clear_want = "None",
+        get = |s| s.valid_until(), want = |x| Some(x)));
+    // bool fields have only two raw values: the prior value is the opposite of value #0
+    v.push(arel!("acquire_by_hash", "Acquire-By-Hash", "no", clear = false,
+        values = [true, false],
+        set = |s, x| s.set_acquire_by_hash(x), clear_set = |_s| (), clear_want = "false",
+        get = |s| s.acquire_by_hash(), want = |x| x));
+    // spelled "No-Support-for-Architecture-all" in the repository format description and in apt
+    v.push(arel!("no_support_for_architecture_all", "No-Support-for-Architecture-all", "no", clear = false,
+        values = [true, false],
+        set = |s, x| s.set_no_support_for_architecture_all(x), clear_set = |_s| (), clear_want = "false",
+        get = |s| s.no_support_for_architecture_all(), want = |x| x));
+    v.push(strvec_row!(arel, "architectures", "Architectures", "i386", ["amd64", "arm64"], set_architectures, architectures));
+    v.push(strvec_row!(arel, "components", "Components", "oldmain", ["main", "contrib"], set_components, components));
+    v.push(str_row!(arel, "description", "Description", "Old description", ["Debian x.y Released 1 January 2024", "An archive"], set_description, description));
+    v.push(cksum_row!(arel, "checksums_md5", "MD5Sum", Md5Checksum, md5sum, set_checksums_md5, checksums_md5));
+    v.push(cksum_row!(arel, "checksums_sha1", "SHA1", Sha1Checksum, sha1, set_checksums_sha1, checksums_sha1));
+    v.push(cksum_row!(arel, "checksums_sha256", "SHA256", Sha256Checksum, sha256, set_checksums_sha256, checksums_sha256));
+    v.push(cksum_row!(arel, "checksums_sha512", "SHA512", Sha512Checksum, sha512, set_checksums_sha512, checksums_sha512));
+    v
+}
+
+// ---- changes::Changes (one pair) and buildinfo::Buildinfo (deb-changes(5), deb-buildinfo(5)) -------------
+
+fn rows_changes_buildinfo() -> Vec<Row> {
+    fn sorted(m: std::collections::HashMap<String, String>) -> Vec<(String, String)> {
+        let mut v: Vec<_> = m.into_iter().collect();
+        v.sort();
+        v
+    }
+    let mut v = vec![];
+    v.push(str_row!(chg, "format", "Format", "1.7", ["1.8", "2.0"], set_format, format));
+
+    v.push(str_row!(binfo, "source", "Source", "oldsrc", ["hello", "hello (1.0-1)"], set_source, source));
+    v.push(strvec_row!(binfo, "binaries", "Binary", "oldbin", ["foo", "libfoo1"], set_binaries, binaries));
+    v.push(binfo!("version", "Version", "0.9-1", clear = false,
+        values = ["1.0-1".to_string(), "2:3.4~rc1-2+b1".to_string()],
+        set = |s, x| s.set_version(x.parse::<debversion::Version>().unwrap()), clear_set = |_s| (), clear_want = "None",
+        get = |s| s.version().map(|x| x.to_string()), want = |x| Some(x)));
+    v.push(str_row!(binfo, "build_architecture", "Build-Architecture", "i386", ["amd64", "arm64"], set_build_architecture, build_architecture));
+    v.push(str_row!(binfo, "architecture", "Architecture", "i386", ["amd64 all source", "all"], set_architecture, architecture));
+    v.push(cksum_row!(binfo, "checksums_sha256", "Checksums-Sha256", Sha256Checksum, sha256, set_checksums_sha256, checksums_sha256));
+    v.push(cksum_row!(binfo, "checksums_sha1", "Checksums-Sha1", Sha1Checksum, sha1, set_checksums_sha1, checksums_sha1));
+    v.push(cksum_row!(binfo, "checksums_md5", "Checksums-Md5", Md5Checksum, md5sum, set_checksums_md5, checksums_md5));
+    v.push(str_row!(binfo, "build_origin", "Build-Origin", "Old", ["Debian", "Ubuntu"], set_build_origin, build_origin));
+    v.push(str_row!(binfo, "build_date", "Build-Date", "Mon, 01 Jan 2001 00:00:00 +0000", ["Sat, 09 Mar 2024 10:11:12 +0000", "Wed, 31 Dec 2025 23:59:59 +0100"], set_build_date, build_date));
+    v.push(strvec_row!(binfo, "build_tainted_by", "Build-Tainted-By", "old-taint", ["merged-usr-via-aliased-dirs", "usr-local-has-programs"], set_build_tainted_by, build_tainted_by));
+    v.push(str_row!(binfo, "format", "Format", "0.9", ["1.0", "1.1"], set_format, format));
+    v.push(str_row!(binfo, "build_path", "Build-Path", "/old/path", ["/build/hello-1.0", "/build/reproducible-path/x"], set_build_path, build_path));
+    // HashMap: compared as a sorted vector
+    v.push(binfo!("environment", "Environment", "OLD=\"1\"", clear = false,
+        values = [vec![("DEB_BUILD_OPTIONS".to_string(), "\"parallel=4\"".to_string()), ("LANG".to_string(), "\"C.UTF-8\"".to_string())],
+                  vec![("LC_ALL".to_string(), "\"C\"".to_string())],
+                  Vec::<(String, String)>::new()],
+        set = |s, x| s.set_environment(x.into_iter().collect()), clear_set = |_s| (), clear_want = "None",
+        get = |s| s.environment().map(sorted), want = |x| Some(x)));
+    v.push(rel_row!(binfo, "installed_build_depends", "Installed-Build-Depends", set_installed_build_depends, installed_build_depends));
+    v
+}
+
+// ---- copyright::Header and copyright::FilesParagraph (DEP-5 / copyright-format 1.0) --------------------------
+
+fn rows_copyright() -> Vec<Row> {
+    let mut v = vec![];
+    v.push(str_row!(chdr, "upstream_name", "Upstream-Name", "oldname", ["hello", "Hello World"], set_upstream_name, upstream_name));
+    v.push(str_row!(chdr, "upstream_contact", "Upstream-Contact", "Old <old@example.com>", ["A B <ab@example.com>", "https://example.com/contact"], set_upstream_contact, upstream_contact));
+    v.push(str_row!(chdr, "source", "Source", "https://old.example.com/", ["https://example.com/hello", "https://example.org/dl/"], set_source, source));
+    v.push(chdr!("files_excluded", "Files-Excluded", "old/*", clear = false,
+        values = [vec!["vendor/*".to_string(), "*.min.js".to_string()], vec!["docs/rfc*.txt".to_string()]],
+        set = |s, x| s.set_files_excluded(&x.iter().map(|u| u.as_str()).collect::<Vec<_>>()), clear_set = |_s| (), clear_want = "None",
+        get = |s| s.files_excluded(), want = |x| Some(x)));
+
+    v.push(cfiles!("copyright", "Copyright", "1999 Old Holder", clear = false,
+        values = [vec!["2020 A <a@example.com>".to_string(), "2021-2023 B".to_string()], vec!["2024 C".to_string()]],
+        set = |s, x| s.set_copyright(&x.iter().map(|u| u.as_str()).collect::<Vec<_>>()), clear_set = |_s| (), clear_want = "[]",
+        get = |s| s.copyright(), want = |x| x));
+    v.push(str_row!(cfiles, "comment", "Comment", "old comment", ["a comment", "first line\nsecond line"], set_comment, comment));
+    v.push(cfiles!("license", "License", "Apache-2.0", clear = false,
+        values = [License::Name("GPL-2+".to_string()),
+                  License::Named("Expat".to_string(), "Permission is hereby granted, free of charge,\nto any person".to_string()),
+                  License::Text("Some custom terms.\nSecond line of them.".to_string()),
+                  License::Text("One line of custom terms.".to_string())],
+        set = |s, x| s.set_license(&x), clear_set = |_s| (), clear_want = "None",
+        get = |s| s.license(), want = |x| Some(x)));
+    v
+}
+
+// ---- dep3::PatchHeader (DEP-3) ------------------------------------------------------------------------------
+
+fn rows_dep3() -> Vec<Row> {
+    let mut v = vec![];
+    v.push(d3!("origin", "Origin", "backport, commit:0000", clear = false,
+        values = [(Some(OriginCategory::Upstream), Origin::Commit("abc123".to_string())),
+                  (None, Origin::Other("https://example.com/patch/1".to_string())),
+                  (Some(OriginCategory::Vendor), Origin::Other("https://bugs.debian.org/1".to_string()))],
+        set = |s, x| s.set_origin(x.0, x.1), clear_set = |_s| (), clear_want = "None",
+        get = |s| s.origin(), want = |x| Some(x)));
+    v.push(d3!("forwarded", "Forwarded", "https://old.example.com/1", clear = false,
+        values = [Forwarded::No, Forwarded::NotNeeded, Forwarded::Yes("https://lists.example.com/2024/1.html".to_string())],
+        set = |s, x| s.set_forwarded(x), clear_set = |_s| (), clear_want = "None",
+        get = |s| s.forwarded(), want = |x| Some(x)));
+    // DEP-3: "Author or From"; the documented name is Author (From is the git-format-patch alias, read in read_dep3)
+    v.push(str_row!(d3, "author", "Author", "Old <old@example.com>", ["A B <ab@example.com>", "C <c@example.org>"], set_author, author));
+    v.push(d3!("last_update", "Last-Update", "2001-02-03", clear = false,
+        values = [chrono::NaiveDate::from_ymd_opt(2024, 3, 9).unwrap(), chrono::NaiveDate::from_ymd_opt(2025, 12, 31).unwrap()],
+        set = |s, x| s.set_last_update(x), clear_set = |_s| (), clear_want = "None",
+        get = |s| s.last_update(), want = |x| Some(x)));
+    v.push(d3!("applied_upstream", "Applied-Upstream", "0.9", clear = false,
+        values = [AppliedUpstream::Commit("abc123".to_string()), AppliedUpstream::Other("1.2, https://example.com/c/1".to_string())],
+        set = |s, x| s.set_applied_upstream(x), clear_set = |_s| (), clear_want = "None",
+        get = |s| s.applied_upstream(), want = |x| Some(x)));
+    // set_upstream_bug / bugs(): the upstream bug is the vendor-less "Bug" field
+    v.push(d3!("upstream_bug", "Bug", "https://old.example.com/bug/0", clear = false,
+        values = ["https://bugzilla.example.com/1".to_string(), "https://example.com/issues/2".to_string()],
+        set = |s, x| s.set_upstream_bug(&x), clear_set = |_s| (), clear_want = "[]",
+        get = |s| s.bugs().filter(|(k, _)| k.is_none()).map(|(_, b)| b).collect::<Vec<_>>(), want = |x| vec![x]));
+    v.push(d3!("vendor_bug(\"Debian\")", "Bug-Debian", "https://bugs.debian.org/1", clear = false,
+        values = ["https://bugs.debian.org/123456".to_string(), "https://bugs.debian.org/7".to_string()],
+        set = |s, x| s.set_vendor_bug("Debian", &x), clear_set = |_s| (), clear_want = "[]",
+        get = |s| s.vendor_bugs("Debian").collect::<Vec<_>>(), want = |x| vec![x]));
+    // these two write Description: another base
+    v.push(str_row!(d3_alt, "description", "Description", "old short\nold long text", ["Fix the frobnicator", "Use FHS paths"], set_description, description));
+    v.push(str_row!(d3_alt, "long_description", "Description", "old short\nold long text", ["Upstream is not interested.", "line 1\nline 2"], set_long_description, long_description));
+    v
+}
+
+// ==== reading tables =============================================================================================
+
+fn csource(doc: &str) -> Result<Source, String> {
+    control(doc)?.source().ok_or_else(|| "no source paragraph".to_string())
+}
+fn cbinary(doc: &str) -> Result<Binary, String> {
+    control(doc)?.binaries().next().ok_or_else(|| "no binary paragraph".to_string())
+}
+
+fn read_control() -> Vec<ReadRow> {
+    vec![
+        // -- classification: the source paragraph is the one with a Source field, wherever it stands
+        read_row!("control::Control", "source().name()", |d| control(d)?.source().and_then(|s| s.name()), [
+            ("Source: foo\n\nPackage: a\n", "Some(\"foo\")"),
+            ("Package: a\n\nSource: foo\nSection: x\n", "Some(\"foo\")"),
+            ("Package: a\n\nPackage: b\n\nSource: foo\n", "Some(\"foo\")"),
+            ("# c\nX-Other: 1\n\n# d\nSource: foo\n\nPackage: a\n", "Some(\"foo\")"),
+            ("Maintainer: x\nSource: foo\n", "Some(\"foo\")"),
+            ("Package: a\n", "None"),
+            ("", "None"),
+        ]),
+        read_row!("control::Control", "binaries().name()", |d| control(d)?.binaries().map(|b| b.name()).collect::<Vec<_>>(), [
+            ("Source: foo\n\nPackage: a\n\nPackage: b\n", "[Some(\"a\"), Some(\"b\")]"),
+            ("Package: a\n\nSource: foo\n\nPackage: b\n", "[Some(\"a\"), Some(\"b\")]"),
+            ("Source: foo\n\n# c\n\nX-Other: 1\n\nPackage: a\nArchitecture: any\n", "[Some(\"a\")]"),
+            ("Source: foo\n\nArchitecture: any\nPackage: a\n", "[Some(\"a\")]"),
+            ("Source: foo\n", "[]"),
+            ("", "[]"),
+        ]),
+        // a field of the source paragraph is read from the source paragraph, not from the first one
+        read_row!("control::Control", "source().section() / binaries().section()", |d| {
+            let c = control(d)?;
+            (c.source().and_then(|s| s.section()), c.binaries().map(|b| b.section()).collect::<Vec<_>>())
+        }, [
+            ("Package: a\nSection: libs\n\nSource: foo\nSection: net\n\nPackage: b\n", "(Some(\"net\"), [Some(\"libs\"), None])"),
+        ]),
+        // -- control::Source readers
+        read_row!("control::Source", "uploaders", |d| csource(d)?.uploaders(), [
+            ("Source: foo\nUploaders: A <a@example.com>\n", "Some([\"A <a@example.com>\"])"),
+            ("Source: foo\nUploaders: A <a@example.com>, B <b@example.com>\n", "Some([\"A <a@example.com>\", \"B <b@example.com>\"])"),
+            ("Source: foo\nUploaders: A <a@example.com>,\n B <b@example.com>,\n C <c@example.com>\n", "Some([\"A <a@example.com>\", \"B <b@example.com>\", \"C <c@example.com>\"])"),
+            ("Source: foo\nUploaders:\n A <a@example.com>,\n B <b@example.com>\n", "Some([\"A <a@example.com>\", \"B <b@example.com>\"])"),
+            ("Source: foo\n", "None"),
+        ]),
+        read_row!("control::Source", "priority", |d| csource(d)?.priority(), [
+            ("Source: foo\nPriority: optional\n", "Some(Optional)"),
+            ("Source: foo\nPriority: required\n", "Some(Required)"),
+            ("Source: foo\nPriority: important\n", "Some(Important)"),
+            ("Source: foo\nPriority: standard\n", "Some(Standard)"),
+            ("Source: foo\nPriority: extra\n", "Some(Extra)"),
+            ("Source: foo\n", "None"),
+        ]),
+        // Policy 5.6.31: yes/no flag; "binary-targets" (the default) means root is required
+        read_row!("control::Source", "rules_requires_root", |d| csource(d)?.rules_requires_root(), [
+            ("Source: foo\nRules-Requires-Root: no\n", "Some(false)"),
+            ("Source: foo\nRules-Requires-Root: yes\n", "Some(true)"),
+            ("Source: foo\n", "None"),
+            ("Source: foo\nRules-Requires-Root: binary-targets\n", "Some(true)"),
+        ]),
+        read_row!("control::Source", "build_depends", |d| csource(d)?.build_depends().map(|r| r.entries().map(|e| e.to_string()).collect::<Vec<_>>()), [
+            ("Source: foo\nBuild-Depends: debhelper-compat (= 13), a | b\n", "Some([\"debhelper-compat (= 13)\", \"a | b\"])"),
+            ("Source: foo\nBuild-Depends:\n debhelper-compat (= 13),\n python3 <!nocheck>,\n", "Some([\"debhelper-compat (= 13)\", \"python3 <!nocheck>\"])"),
+            ("Source: foo\n", "None"),
+        ]),
+        // getter-only relation readers
+        read_row!("control::Source", "build_depends_indep", |d| csource(d)?.build_depends_indep().map(|r| r.to_string()), [
+            ("Source: foo\nBuild-Depends-Indep: a, b (>= 1)\n", "Some(\"a, b (>= 1)\")"), ("Source: foo\nBuild-Depends: x\n", "None")]),
+        read_row!("control::Source", "build_depends_arch", |d| csource(d)?.build_depends_arch().map(|r| r.to_string()), [
+            ("Source: foo\nBuild-Depends-Arch: a, b (>= 1)\n", "Some(\"a, b (>= 1)\")"), ("Source: foo\nBuild-Depends: x\n", "None")]),
+        read_row!("control::Source", "build_conflicts", |d| csource(d)?.build_conflicts().map(|r| r.to_string()), [
+            ("Source: foo\nBuild-Conflicts: a, b (>= 1)\n", "Some(\"a, b (>= 1)\")"), ("Source: foo\nBuild-Depends: x\n", "None")]),
+        read_row!("control::Source", "build_conflicts_indep", |d| csource(d)?.build_conflicts_indep().map(|r| r.to_string()), [
+            ("Source: foo\nBuild-Conflicts-Indep: a, b (>= 1)\n", "Some(\"a, b (>= 1)\")"), ("Source: foo\nBuild-Conflicts: x\n", "None")]),
+        read_row!("control::Source", "build_conflicts_arch", |d| csource(d)?.build_conflicts_arch().map(|r| r.to_string()), [
+            ("Source: foo\nBuild-Conflicts-Arch: a, b (>= 1)\n", "Some(\"a, b (>= 1)\")"), ("Source: foo\nBuild-Conflicts: x\n", "None")]),
+        read_row!("control::Source", "homepage", |d| csource(d)?.homepage().map(|u| u.to_string()), [
+            ("Source: foo\nHomepage: https://example.com/hello\n", "Some(\"https://example.com/hello\")"), ("Source: foo\n", "None")]),
+        // "Return the Vcs used by the package": the Vcs-<type> field (Policy 5.6.26)
+        read_row!("control::Source", "vcs", |d| csource(d)?.vcs(), [
+            ("Source: foo\nVcs-Browser: https://example.com/b\nVcs-Git: https://example.com/foo.git\n", "Some(Git { repo_url: \"https://example.com/foo.git\", branch: None, subpath: None })"),
+            ("Source: foo\nVcs-Git: https://example.com/foo.git -b debian/sid\n", "Some(Git { repo_url: \"https://example.com/foo.git\", branch: Some(\"debian/sid\"), subpath: None })"),
+            ("Source: foo\nVcs-Svn: svn://example.com/foo/trunk\n", "Some(Svn { url: \"svn://example.com/foo/trunk\" })"),
+            ("Source: foo\nVcs-Hg: https://example.com/hg\n", "Some(Hg { repo_url: \"https://example.com/hg\" })"),
+            ("Source: foo\nVcs-Browser: https://example.com/b\n", "None"),
+        ]),
+        // -- control::Binary readers
+        read_row!("control::Binary", "essential", |d| cbinary(d)?.essential(), [
+            ("Package: a\nEssential: yes\n", "true"), ("Package: a\nEssential: no\n", "false"), ("Package: a\n", "false")]),
+        read_row!("control::Binary", "multi_arch", |d| cbinary(d)?.multi_arch(), [
+            ("Package: a\nMulti-Arch: same\n", "Some(Same)"), ("Package: a\nMulti-Arch: foreign\n", "Some(Foreign)"),
+            ("Package: a\nMulti-Arch: allowed\n", "Some(Allowed)"), ("Package: a\nMulti-Arch: no\n", "Some(No)"), ("Package: a\n", "None")]),
+        read_row!("control::Binary", "description", |d| cbinary(d)?.description(), [
+            ("Package: a\nDescription: short\n", "Some(\"short\")"),
+            ("Package: a\nDescription: short\n long 1\n .\n long 2\n", "Some(\"short\\nlong 1\\n.\\nlong 2\")"),
+            ("Package: a\n", "None")]),
+        read_row!("control::Binary", "depends", |d| cbinary(d)?.depends().map(|r| r.entries().map(|e| e.to_string()).collect::<Vec<_>>()), [
+            ("Package: a\nDepends: ${shlibs:Depends}, libc6 (>= 2.36), a | b\n", "Some([\"libc6 (>= 2.36)\", \"a | b\"])"),
+            ("Package: a\nDepends: a,\n b [amd64]\n", "Some([\"a\", \"b [amd64]\"])"),
+            ("Package: a\n", "None")]),
+        read_row!("control::Binary", "homepage", |d| cbinary(d)?.homepage().map(|u| u.to_string()), [
+            ("Package: a\nHomepage: https://example.com/hello\n", "Some(\"https://example.com/hello\")"), ("Package: a\n", "None")]),
+    ]
+}
+
+fn asource(doc: &str) -> Result<apt::Source, String> {
+    doc.parse::<apt::Source>().map_err(|e| e.to_string().replace('\n', "; "))
+}
+fn apackage(doc: &str) -> Result<apt::Package, String> {
+    doc.parse::<apt::Package>().map_err(|e| e.to_string().replace('\n', "; "))
+}
+fn arelease(doc: &str) -> Result<apt::Release, String> {
+    doc.parse::<apt::Release>().map_err(|e| e.to_string().replace('\n', "; "))
+}
+
+fn read_apt() -> Vec<ReadRow> {
+    vec![
+        // -- apt::Source: checksum triples, one per line, the first line of the field is empty
+        read_row!("apt::Source", "files", |d| asource(d)?.files(), [
+            ("Package: foo\nFiles:\n d41d8cd9 1234 foo_1.0.dsc\n 900150983c 5 foo_1.0.tar.xz\n",
+             "[Md5Checksum { md5sum: \"d41d8cd9\", size: 1234, filename: \"foo_1.0.dsc\" }, Md5Checksum { md5sum: \"900150983c\", size: 5, filename: \"foo_1.0.tar.xz\" }]"),
+            ("Package: foo\nFiles: d41d8cd9 1234 foo_1.0.dsc\n", "[Md5Checksum { md5sum: \"d41d8cd9\", size: 1234, filename: \"foo_1.0.dsc\" }]"),
+            ("Package: foo\n", "[]"),
+        ]),
+        read_row!("apt::Source", "checksums_sha1", |d| asource(d)?.checksums_sha1(), [
+            ("Package: foo\nChecksums-Sha1:\n da39a3ee 1234 foo_1.0.dsc\n a9993e36 5 foo_1.0.tar.xz\n",
+             "[Sha1Checksum { sha1: \"da39a3ee\", size: 1234, filename: \"foo_1.0.dsc\" }, Sha1Checksum { sha1: \"a9993e36\", size: 5, filename: \"foo_1.0.tar.xz\" }]"),
+            ("Package: foo\n", "[]"),
+        ]),
+        read_row!("apt::Source", "checksums_sha256", |d| asource(d)?.checksums_sha256(), [
+            ("Package: foo\nChecksums-Sha256:\n e3b0c442 1234 foo_1.0.dsc\n ba7816bf 5 foo_1.0.tar.xz\n",
+             "[Sha256Checksum { sha256: \"e3b0c442\", size: 1234, filename: \"foo_1.0.dsc\" }, Sha256Checksum { sha256: \"ba7816bf\", size: 5, filename: \"foo_1.0.tar.xz\" }]"),
+            ("Package: foo\n", "[]"),
+        ]),
+        read_row!("apt::Source", "checksums_sha512", |d| asource(d)?.checksums_sha512(), [
+            ("Package: foo\nChecksums-Sha512:\n cf83e135 1234 foo_1.0.dsc\n ddaf35a1 5 foo_1.0.tar.xz\n",
+             "[Sha512Checksum { sha512: \"cf83e135\", size: 1234, filename: \"foo_1.0.dsc\" }, Sha512Checksum { sha512: \"ddaf35a1\", size: 5, filename: \"foo_1.0.tar.xz\" }]"),
+            ("Package: foo\n", "[]"),
+        ]),
+        read_row!("apt::Source", "uploaders", |d| asource(d)?.uploaders(), [
+            ("Package: foo\nUploaders: A <a@example.com>, B <b@example.com>\n", "Some([\"A <a@example.com>\", \"B <b@example.com>\"])"),
+            ("Package: foo\nUploaders: A <a@example.com>,\n B <b@example.com>\n", "Some([\"A <a@example.com>\", \"B <b@example.com>\"])"),
+            ("Package: foo\n", "None"),
+        ]),
+        read_row!("apt::Source", "binary", |d| asource(d)?.binary().map(|r| r.entries().map(|e| e.to_string()).collect::<Vec<_>>()), [
+            ("Package: foo\nBinary: foo, libfoo1, libfoo-dev\n", "Some([\"foo\", \"libfoo1\", \"libfoo-dev\"])"),
+            ("Package: foo\nBinary: foo,\n libfoo1\n", "Some([\"foo\", \"libfoo1\"])"),
+            ("Package: foo\n", "None"),
+        ]),
+        read_row!("apt::Source", "version / priority / build_depends", |d| {
+            let s = asource(d)?;
+            (s.version().map(|v| v.to_string()), s.priority(), s.build_depends().map(|r| r.entries().map(|e| e.to_string()).collect::<Vec<_>>()))
+        }, [
+            ("Package: foo\nVersion: 1:2.0-3\nPriority: optional\nBuild-Depends: debhelper-compat (= 13), a | b\n", "(Some(\"1:2.0-3\"), Some(Optional), Some([\"debhelper-compat (= 13)\", \"a | b\"]))"),
+            ("Package: foo\n", "(None, None, None)"),
+        ]),
+        // -- apt::Package
+        read_row!("apt::Package", "installed_size / size", |d| { let p = apackage(d)?; (p.installed_size(), p.size()) }, [
+            ("Package: foo\nInstalled-Size: 123\nSize: 45678\n", "(Some(123), Some(45678))"),
+            ("Package: foo\n", "(None, None)"),
+        ]),
+        read_row!("apt::Package", "tags(\"Tag\")", |d| apackage(d)?.tags("Tag"), [
+            ("Package: foo\nTag: role::program, uitoolkit::gtk\n", "Some([\"role::program\", \"uitoolkit::gtk\"])"),
+            ("Package: foo\nTag: role::program,\n uitoolkit::gtk\n", "Some([\"role::program\", \"uitoolkit::gtk\"])"),
+            ("Package: foo\n", "None"),
+        ]),
+        read_row!("apt::Package", "depends", |d| apackage(d)?.depends().map(|r| r.entries().map(|e| e.to_string()).collect::<Vec<_>>()), [
+            ("Package: foo\nDepends: libc6 (>= 2.36), a | b, c:any\n", "Some([\"libc6 (>= 2.36)\", \"a | b\", \"c:any\"])"),
+            ("Package: foo\n", "None"),
+        ]),
+        read_row!("apt::Package", "multi_arch / priority / version", |d| { let p = apackage(d)?; (p.multi_arch(), p.priority(), p.version().map(|v| v.to_string())) }, [
+            ("Package: foo\nMulti-Arch: foreign\nPriority: important\nVersion: 1.0-1+b2\n", "(Some(Foreign), Some(Important), Some(\"1.0-1+b2\"))"),
+            ("Package: foo\n", "(None, None, None)"),
+        ]),
+        read_row!("apt::Package", "description / homepage", |d| { let p = apackage(d)?; (p.description(), p.homepage().map(|u| u.to_string())) }, [
+            ("Package: foo\nDescription: short\n long 1\n .\n long 2\nHomepage: https://example.com/x\n", "(Some(\"short\\nlong 1\\n.\\nlong 2\"), Some(\"https://example.com/x\"))"),
+            ("Package: foo\n", "(None, None)"),
+        ]),
+        // -- apt::Release
+        read_row!("apt::Release", "architectures / components", |d| { let r = arelease(d)?; (r.architectures(), r.components()) }, [
+            ("Origin: Debian\nArchitectures: all amd64 arm64\nComponents: main contrib non-free-firmware\n", "(Some([\"all\", \"amd64\", \"arm64\"]), Some([\"main\", \"contrib\", \"non-free-firmware\"]))"),
+            ("Origin: Debian\nArchitectures: amd64\n arm64\nComponents: main\n", "(Some([\"amd64\", \"arm64\"]), Some([\"main\"]))"),
+            ("Origin: Debian\n", "(None, None)"),
+        ]),
+        read_row!("apt::Release", "acquire_by_hash / no_support_for_architecture_all", |d| { let r = arelease(d)?; (r.acquire_by_hash(), r.no_support_for_architecture_all()) }, [
+            ("Origin: Debian\nAcquire-By-Hash: yes\n", "(true, false)"),
+            ("Origin: Debian\nAcquire-By-Hash: no\n", "(false, false)"),
+            ("Origin: Debian\n", "(false, false)"),
+        ]),
+        // Date / Valid-Until: RFC 2822 date; archive Release files write the zone as "UTC"
+        read_row!("apt::Release", "date / valid_until", |d| { let r = arelease(d)?; (r.date().map(|x| x.to_rfc3339()), r.valid_until().map(|x| x.to_rfc3339())) }, [
+            ("Origin: Debian\nDate: Sat, 09 Mar 2024 10:11:12 +0000\nValid-Until: Sat, 16 Mar 2024 10:11:12 +0000\n", "(Some(\"2024-03-09T10:11:12+00:00\"), Some(\"2024-03-16T10:11:12+00:00\"))"),
+            ("Origin: Debian\n", "(None, None)"),
+            ("Origin: Debian\nDate: Sat, 09 Mar 2024 10:11:12 UTC\n", "(Some(\"2024-03-09T10:11:12+00:00\"), None)"),
+            ("Origin: Debian\nValid-Until: Sat, 16 Mar 2024 10:11:12 UTC\n", "(None, Some(\"2024-03-16T10:11:12+00:00\"))"),
+        ]),
+        read_row!("apt::Release", "changelogs", |d| arelease(d)?.changelogs(), [
+            ("Origin: Debian\nChangelogs: https://metadata.ftp-master.debian.org/changelogs/@CHANGEPATH@_changelog\n", "Some([\"https://metadata.ftp-master.debian.org/changelogs/@CHANGEPATH@_changelog\"])"),
+            ("Origin: Debian\n", "None"),
+        ]),
+        read_row!("apt::Release", "checksums_md5", |d| arelease(d)?.checksums_md5(), [
+            ("Origin: Debian\nMD5Sum:\n d41d8cd9          1234 main/binary-amd64/Packages\n 900150983c           5 main/binary-amd64/Packages.xz\n",
+             "[Md5Checksum { md5sum: \"d41d8cd9\", size: 1234, filename: \"main/binary-amd64/Packages\" }, Md5Checksum { md5sum: \"900150983c\", size: 5, filename: \"main/binary-amd64/Packages.xz\" }]"),
+            ("Origin: Debian\n", "[]"),
+        ]),
+        read_row!("apt::Release", "checksums_sha1", |d| arelease(d)?.checksums_sha1(), [
+            ("Origin: Debian\nSHA1:\n da39a3ee          1234 main/binary-amd64/Packages\n a9993e36           5 main/source/Sources.xz\n",
+             "[Sha1Checksum { sha1: \"da39a3ee\", size: 1234, filename: \"main/binary-amd64/Packages\" }, Sha1Checksum { sha1: \"a9993e36\", size: 5, filename: \"main/source/Sources.xz\" }]"),
+            ("Origin: Debian\n", "[]"),
+        ]),
+        read_row!("apt::Release", "checksums_sha256", |d| arelease(d)?.checksums_sha256(), [
+            ("Origin: Debian\nSHA256:\n e3b0c442          1234 main/binary-amd64/Packages\n ba7816bf           5 main/source/Sources.xz\n",
+             "[Sha256Checksum { sha256: \"e3b0c442\", size: 1234, filename: \"main/binary-amd64/Packages\" }, Sha256Checksum { sha256: \"ba7816bf\", size: 5, filename: \"main/source/Sources.xz\" }]"),
+            ("Origin: Debian\n", "[]"),
+        ]),
+        read_row!("apt::Release", "checksums_sha512", |d| arelease(d)?.checksums_sha512(), [
+            ("Origin: Debian\nSHA512:\n cf83e135          1234 main/binary-amd64/Packages\n ddaf35a1           5 main/source/Sources.xz\n",
+             "[Sha512Checksum { sha512: \"cf83e135\", size: 1234, filename: \"main/binary-amd64/Packages\" }, Sha512Checksum { sha512: \"ddaf35a1\", size: 5, filename: \"main/source/Sources.xz\" }]"),
+            ("Origin: Debian\n", "[]"),
+        ]),
+    ]
+}
+
+fn changes(doc: &str) -> Result<Changes, String> {
+    Changes::read(doc.as_bytes()).map_err(|e| e.to_string().replace('\n', "; "))
+}
+fn buildinfo(doc: &str) -> Result<Buildinfo, String> {
+    doc.parse::<Buildinfo>().map_err(|e| e.to_string().replace('\n', "; "))
+}
+
+fn read_changes_buildinfo() -> Vec<ReadRow> {
+    fn sorted(m: std::collections::HashMap<String, String>) -> Vec<(String, String)> {
+        let mut v: Vec<_> = m.into_iter().collect();
+        v.sort();
+        v
+    }
+    vec![
+        // -- changes::Changes (deb-changes(5)); every getter but format is getter-only
+        read_row!("changes::Changes", "source / distribution / maintainer / changed_by", |d| { let c = changes(d)?; (c.source(), c.distribution(), c.maintainer(), c.changed_by()) }, [
+            ("Format: 1.8\nSource: hello\nDistribution: unstable\nMaintainer: A <a@example.com>\nChanged-By: B <b@example.com>\n",
+             "(Some(\"hello\"), Some(\"unstable\"), Some(\"A <a@example.com>\"), Some(\"B <b@example.com>\"))"),
+            ("Format: 1.8\n", "(None, None, None, None)"),
+        ]),
+        // space-separated lists; Binary is a folded field
+        read_row!("changes::Changes", "binary", |d| changes(d)?.binary(), [
+            ("Format: 1.8\nBinary: hello hello-dbgsym\n", "Some([\"hello\", \"hello-dbgsym\"])"),
+            ("Format: 1.8\nBinary: hello\n hello-dbgsym libhello1\n", "Some([\"hello\", \"hello-dbgsym\", \"libhello1\"])"),
+            ("Format: 1.8\n", "None"),
+        ]),
+        read_row!("changes::Changes", "architecture", |d| changes(d)?.architecture(), [
+            ("Format: 1.8\nArchitecture: source amd64 all\n", "Some([\"source\", \"amd64\", \"all\"])"),
+            ("Format: 1.8\nArchitecture: all\n", "Some([\"all\"])"),
+            ("Format: 1.8\n", "None"),
+        ]),
+        read_row!("changes::Changes", "version", |d| changes(d)?.version().map(|v| v.to_string()), [
+            ("Format: 1.8\nVersion: 1:2.0-3\n", "Some(\"1:2.0-3\")"), ("Format: 1.8\n", "None")]),
+        read_row!("changes::Changes", "urgency", |d| changes(d)?.urgency(), [
+            ("Format: 1.8\nUrgency: low\n", "Some(Low)"), ("Format: 1.8\nUrgency: medium\n", "Some(Medium)"), ("Format: 1.8\nUrgency: high\n", "Some(High)"),
+            ("Format: 1.8\nUrgency: emergency\n", "Some(Emergency)"), ("Format: 1.8\nUrgency: critical\n", "Some(Critical)"),
+            ("Format: 1.8\nUrgency: HIGH\n", "Some(High)"), ("Format: 1.8\n", "None"),
+            // Policy 5.6.17: the keyword may be followed by a commentary after a space
+            ("Format: 1.8\nUrgency: high (security fix)\n", "Some(High)"),
+        ]),
+        read_row!("changes::Changes", "description", |d| changes(d)?.description(), [
+            ("Format: 1.8\nDescription:\n hello - a greeting\n hello-dbgsym - debug symbols for hello\n", "Some(\"hello - a greeting\\nhello-dbgsym - debug symbols for hello\")"),
+            ("Format: 1.8\n", "None"),
+        ]),
+        read_row!("changes::Changes", "checksums_sha1", |d| changes(d)?.checksums_sha1(), [
+            ("Format: 1.8\nChecksums-Sha1:\n da39a3ee 1234 hello_1.0.dsc\n a9993e36 5 hello_1.0_amd64.deb\n",
+             "Some([Sha1Checksum { sha1: \"da39a3ee\", size: 1234, filename: \"hello_1.0.dsc\" }, Sha1Checksum { sha1: \"a9993e36\", size: 5, filename: \"hello_1.0_amd64.deb\" }])"),
+            ("Format: 1.8\n", "None"),
+        ]),
+        read_row!("changes::Changes", "checksums_sha256", |d| changes(d)?.checksums_sha256(), [
+            ("Format: 1.8\nChecksums-Sha256:\n e3b0c442 1234 hello_1.0.dsc\n ba7816bf 5 hello_1.0_amd64.deb\n",
+             "Some([Sha256Checksum { sha256: \"e3b0c442\", size: 1234, filename: \"hello_1.0.dsc\" }, Sha256Checksum { sha256: \"ba7816bf\", size: 5, filename: \"hello_1.0_amd64.deb\" }])"),
+            ("Format: 1.8\n", "None"),
+        ]),
+        // Files: md5sum size section priority filename
+        read_row!("changes::Changes", "files", |d| changes(d)?.files(), [
+            ("Format: 1.8\nFiles:\n d41d8cd9 1234 devel optional hello_1.0.dsc\n 900150983c 5 contrib/libs extra hello_1.0_amd64.deb\n",
+             "Some([File { md5sum: \"d41d8cd9\", size: 1234, section: \"devel\", priority: Optional, filename: \"hello_1.0.dsc\" }, File { md5sum: \"900150983c\", size: 5, section: \"contrib/libs\", priority: Extra, filename: \"hello_1.0_amd64.deb\" }])"),
+            ("Format: 1.8\n", "None"),
+        ]),
+        // -- buildinfo::Buildinfo (deb-buildinfo(5)): Binary and Build-Tainted-By are folded space-separated lists
+        read_row!("buildinfo::Buildinfo", "binaries", |d| buildinfo(d)?.binaries(), [
+            ("Format: 1.0\nBinary: hello hello-dbgsym\n", "Some([\"hello\", \"hello-dbgsym\"])"),
+            ("Format: 1.0\nBinary: hello\n", "Some([\"hello\"])"),
+            ("Format: 1.0\n", "None"),
+            ("Format: 1.0\nBinary: hello hello-dbgsym\n libhello1\n", "Some([\"hello\", \"hello-dbgsym\", \"libhello1\"])"),
+        ]),
+        read_row!("buildinfo::Buildinfo", "build_tainted_by", |d| buildinfo(d)?.build_tainted_by(), [
+            ("Format: 1.0\nBuild-Tainted-By: merged-usr-via-aliased-dirs usr-local-has-programs\n", "Some([\"merged-usr-via-aliased-dirs\", \"usr-local-has-programs\"])"),
+            ("Format: 1.0\n", "None"),
+            ("Format: 1.0\nBuild-Tainted-By:\n merged-usr-via-aliased-dirs\n usr-local-has-programs\n", "Some([\"merged-usr-via-aliased-dirs\", \"usr-local-has-programs\"])"),
+        ]),
+        // Environment: one NAME="value" per line, first line empty; the value is reported as written
+        read_row!("buildinfo::Buildinfo", "environment", |d| buildinfo(d)?.environment().map(sorted), [
+            ("Format: 1.0\nEnvironment:\n DEB_BUILD_OPTIONS=\"parallel=4\"\n LANG=\"C.UTF-8\"\n", "Some([(\"DEB_BUILD_OPTIONS\", \"\\\"parallel=4\\\"\"), (\"LANG\", \"\\\"C.UTF-8\\\"\")])"),
+            ("Format: 1.0\n", "None"),
+        ]),
+        read_row!("buildinfo::Buildinfo", "checksums_md5", |d| buildinfo(d)?.checksums_md5(), [
+            ("Format: 1.0\nChecksums-Md5:\n d41d8cd9 1234 hello_1.0_amd64.deb\n 900150983c 5 hello-dbgsym_1.0_amd64.deb\n",
+             "[Md5Checksum { md5sum: \"d41d8cd9\", size: 1234, filename: \"hello_1.0_amd64.deb\" }, Md5Checksum { md5sum: \"900150983c\", size: 5, filename: \"hello-dbgsym_1.0_amd64.deb\" }]"),
+            ("Format: 1.0\n", "[]"),
+        ]),
+        read_row!("buildinfo::Buildinfo", "checksums_sha1", |d| buildinfo(d)?.checksums_sha1(), [
+            ("Format: 1.0\nChecksums-Sha1:\n da39a3ee 1234 hello_1.0_amd64.deb\n", "[Sha1Checksum { sha1: \"da39a3ee\", size: 1234, filename: \"hello_1.0_amd64.deb\" }]"),
+            ("Format: 1.0\n", "[]"),
+        ]),
+        read_row!("buildinfo::Buildinfo", "checksums_sha256", |d| buildinfo(d)?.checksums_sha256(), [
+            ("Format: 1.0\nChecksums-Sha256:\n e3b0c442 1234 hello_1.0_amd64.deb\n", "[Sha256Checksum { sha256: \"e3b0c442\", size: 1234, filename: \"hello_1.0_amd64.deb\" }]"),
+            ("Format: 1.0\n", "[]"),
+        ]),
+        read_row!("buildinfo::Buildinfo", "installed_build_depends", |d| buildinfo(d)?.installed_build_depends().map(|r| r.entries().map(|e| e.to_string()).collect::<Vec<_>>()), [
+            ("Format: 1.0\nInstalled-Build-Depends:\n autoconf (= 2.71-3),\n automake (= 1:1.16.5-1.3),\n base-files (= 12.4+deb12u5)\n", "Some([\"autoconf (= 2.71-3)\", \"automake (= 1:1.16.5-1.3)\", \"base-files (= 12.4+deb12u5)\"])"),
+            ("Format: 1.0\n", "None"),
+        ]),
+        read_row!("buildinfo::Buildinfo", "version / source / architecture", |d| { let b = buildinfo(d)?; (b.version().map(|v| v.to_string()), b.source(), b.architecture()) }, [
+            ("Format: 1.0\nSource: hello\nVersion: 1:2.0-3\nArchitecture: amd64 source\n", "(Some(\"1:2.0-3\"), Some(\"hello\"), Some(\"amd64 source\"))"),
+            ("Format: 1.0\n", "(None, None, None)"),
+        ]),
+    ]
+}
+fn read_copyright() -> Vec<ReadRow> {
+    fn files1(doc: &str) -> Result<FilesParagraph, String> {
+        copyright(doc)?.iter_files().next().ok_or_else(|| "no files paragraph".to_string())
+    }
+    fn header(doc: &str) -> Result<Header, String> {
+        copyright(doc)?.header().ok_or_else(|| "no header paragraph".to_string())
+    }
+    vec![
+        read_row!("copyright::Header", "format_string", |d| header(d)?.format_string(), [
+            ("Format: https://www.debian.org/doc/packaging-manuals/copyright-format/1.0/\nUpstream-Name: x\n", "Some(\"https://www.debian.org/doc/packaging-manuals/copyright-format/1.0/\")"),
+        ]),
+        read_row!("copyright::Header", "upstream_name / upstream_contact / source", |d| { let h = header(d)?; (h.upstream_name(), h.upstream_contact(), h.source()) }, [
+            ("Format: https://www.debian.org/doc/packaging-manuals/copyright-format/1.0/\nUpstream-Name: hello\nUpstream-Contact: A <a@example.com>\nSource: https://example.com/hello\n\nFiles: *\nCopyright: c\nLicense: MIT\n",
+             "(Some(\"hello\"), Some(\"A <a@example.com>\"), Some(\"https://example.com/hello\"))"),
+            ("Format: https://www.debian.org/doc/packaging-manuals/copyright-format/1.0/\n\nFiles: *\nCopyright: c\nLicense: MIT\nSource: not-the-header\n", "(None, None, None)"),
+        ]),
+        // Files-Excluded has the syntax of Files: a whitespace-separated list of patterns (uscan(1), mk-origtargz)
+        read_row!("copyright::Header", "files_excluded", |d| header(d)?.files_excluded(), [
+            ("Format: https://www.debian.org/doc/packaging-manuals/copyright-format/1.0/\nFiles-Excluded: vendor/*\n", "Some([\"vendor/*\"])"),
+            ("Format: https://www.debian.org/doc/packaging-manuals/copyright-format/1.0/\nFiles-Excluded:\n vendor/*\n *.min.js\n", "Some([\"vendor/*\", \"*.min.js\"])"),
+            ("Format: https://www.debian.org/doc/packaging-manuals/copyright-format/1.0/\n", "None"),
+        ]),
+        // -- classification of the paragraphs
+        read_row!("copyright::Copyright", "iter_files().files()", |d| copyright(d)?.iter_files().map(|f| f.files()).collect::<Vec<_>>(), [
+            ("Format: https://www.debian.org/doc/packaging-manuals/copyright-format/1.0/\n\nFiles: *\nCopyright: c\nLicense: MIT\n\nLicense: MIT\n text\n\nFiles: debian/*\nCopyright: d\nLicense: MIT\n",
+             "[[\"*\"], [\"debian/*\"]]"),
+            ("Format: https://www.debian.org/doc/packaging-manuals/copyright-format/1.0/\n\nLicense: MIT\n text\n", "[]"),
+        ]),
+        // stand-alone license paragraphs; the header paragraph may itself carry License and Copyright fields (DEP-5)
+        read_row!("copyright::Copyright", "iter_licenses().name()", |d| copyright(d)?.iter_licenses().map(|l| l.name()).collect::<Vec<_>>(), [
+            ("Format: https://www.debian.org/doc/packaging-manuals/copyright-format/1.0/\n\nFiles: *\nCopyright: c\nLicense: MIT\n\nLicense: MIT\n text m\n\nFiles: debian/*\nCopyright: d\nLicense: GPL-2+\n\nLicense: GPL-2+\n text g\n",
+             "[Some(\"MIT\"), Some(\"GPL-2+\")]"),
+            ("Format: https://www.debian.org/doc/packaging-manuals/copyright-format/1.0/\n\nFiles: *\nCopyright: c\nLicense: MIT\n", "[]"),
+        ]),
+        // -- FilesParagraph readers
+        read_row!("copyright::FilesParagraph", "files", |d| files1(d)?.files(), [
+            ("Format: https://www.debian.org/doc/packaging-manuals/copyright-format/1.0/\n\nFiles: *\nCopyright: c\nLicense: MIT\n", "[\"*\"]"),
+            ("Format: https://www.debian.org/doc/packaging-manuals/copyright-format/1.0/\n\nFiles: src/*.c  src/*.h\n debian/*\nCopyright: c\nLicense: MIT\n", "[\"src/*.c\", \"src/*.h\", \"debian/*\"]"),
+            ("Format: https://www.debian.org/doc/packaging-manuals/copyright-format/1.0/\n\nFiles:\n a\n b\nCopyright: c\nLicense: MIT\n", "[\"a\", \"b\"]"),
+        ]),
+        // one holder per line
+        read_row!("copyright::FilesParagraph", "copyright", |d| files1(d)?.copyright(), [
+            ("Format: https://www.debian.org/doc/packaging-manuals/copyright-format/1.0/\n\nFiles: *\nCopyright: 2020 A <a@example.com>\nLicense: MIT\n", "[\"2020 A <a@example.com>\"]"),
+            ("Format: https://www.debian.org/doc/packaging-manuals/copyright-format/1.0/\n\nFiles: *\nCopyright: 2020 A\n 2021-2023 B\nLicense: MIT\n", "[\"2020 A\", \"2021-2023 B\"]"),
+            ("Format: https://www.debian.org/doc/packaging-manuals/copyright-format/1.0/\n\nFiles: *\nCopyright:\n 2020 A\n 2021-2023 B\nLicense: MIT\n", "[\"2020 A\", \"2021-2023 B\"]"),
+        ]),
+        // first line: short name; remaining lines: text
+        read_row!("copyright::FilesParagraph", "license", |d| files1(d)?.license(), [
+            ("Format: https://www.debian.org/doc/packaging-manuals/copyright-format/1.0/\n\nFiles: *\nCopyright: c\nLicense: GPL-2+\n", "Some(Name(\"GPL-2+\"))"),
+            ("Format: https://www.debian.org/doc/packaging-manuals/copyright-format/1.0/\n\nFiles: *\nCopyright: c\nLicense: Expat\n Permission is hereby granted\n .\n free of charge\n", "Some(Named(\"Expat\", \"Permission is hereby granted\\n.\\nfree of charge\"))"),
+            ("Format: https://www.debian.org/doc/packaging-manuals/copyright-format/1.0/\n\nFiles: *\nCopyright: c\nLicense: GPL-2+ or Expat\n", "Some(Name(\"GPL-2+ or Expat\"))"),
+            ("Format: https://www.debian.org/doc/packaging-manuals/copyright-format/1.0/\n\nFiles: *\nCopyright: c\n", "None"),
+        ]),
+        read_row!("copyright::FilesParagraph", "comment", |d| files1(d)?.comment(), [
+            ("Format: https://www.debian.org/doc/packaging-manuals/copyright-format/1.0/\n\nFiles: *\nCopyright: c\nLicense: MIT\nComment: line 1\n line 2\n", "Some(\"line 1\\nline 2\")"),
+            ("Format: https://www.debian.org/doc/packaging-manuals/copyright-format/1.0/\n\nFiles: *\nCopyright: c\nLicense: MIT\n", "None"),
+        ]),
+        // -- LicenseParagraph readers (getter-only)
+        read_row!("copyright::LicenseParagraph", "name / text / comment", |d| copyright(d)?.iter_licenses().map(|l| (l.name(), l.text(), l.comment())).collect::<Vec<_>>(), [
+            ("Format: https://www.debian.org/doc/packaging-manuals/copyright-format/1.0/\n\nLicense: GPL-3+\n This program is free software\n .\n second paragraph\nComment: see /usr/share/common-licenses\n",
+             "[(Some(\"GPL-3+\"), Some(\"This program is free software\\n.\\nsecond paragraph\"), Some(\"see /usr/share/common-licenses\"))]"),
+            ("Format: https://www.debian.org/doc/packaging-manuals/copyright-format/1.0/\n\nLicense: MIT\n text\n", "[(Some(\"MIT\"), Some(\"text\"), None)]"),
+            // a paragraph that only names the license
+            ("Format: https://www.debian.org/doc/packaging-manuals/copyright-format/1.0/\n\nLicense: GPL-3+\n", "[(Some(\"GPL-3+\"), None, None)]"),
+        ]),
+    ]
+}
+
+fn patch(doc: &str) -> Result<PatchHeader, String> {
+    PatchHeader::from_str(doc).map_err(|e| e.to_string().replace('\n', "; "))
+}
+
+fn read_dep3() -> Vec<ReadRow> {
+    vec![
+        // Origin: [<category>, ]<url or commit:id>
+        read_row!("dep3::PatchHeader", "origin", |d| patch(d)?.origin(), [
+            ("Description: x\nOrigin: upstream, commit:abc123\n", "Some((Some(Upstream), Commit(\"abc123\")))"),
+            ("Description: x\nOrigin: backport, https://example.com/c/1\n", "Some((Some(Backport), Other(\"https://example.com/c/1\")))"),
+            ("Description: x\nOrigin: vendor, https://bugs.debian.org/1\n", "Some((Some(Vendor), Other(\"https://bugs.debian.org/1\")))"),
+            ("Description: x\nOrigin: other, https://example.com/p\n", "Some((Some(Other), Other(\"https://example.com/p\")))"),
+            ("Description: x\nOrigin: https://example.com/p\n", "Some((None, Other(\"https://example.com/p\")))"),
+            ("Description: x\nOrigin: commit:abc123\n", "Some((None, Commit(\"abc123\")))"),
+            ("Description: x\n", "None"),
+        ]),
+        // Forwarded: "no", "not-needed", anything else means forwarded
+        read_row!("dep3::PatchHeader", "forwarded", |d| patch(d)?.forwarded(), [
+            ("Description: x\nForwarded: no\n", "Some(No)"),
+            ("Description: x\nForwarded: not-needed\n", "Some(NotNeeded)"),
+            ("Description: x\nForwarded: https://lists.example.com/1.html\n", "Some(Yes(\"https://lists.example.com/1.html\"))"),
+            ("Description: x\nForwarded: yes\n", "Some(Yes(\"yes\"))"),
+            ("Description: x\n", "None"),
+        ]),
+        read_row!("dep3::PatchHeader", "applied_upstream", |d| patch(d)?.applied_upstream(), [
+            ("Description: x\nApplied-Upstream: commit:abc123\n", "Some(Commit(\"abc123\"))"),
+            ("Description: x\nApplied-Upstream: 1.2, https://example.com/c/1\n", "Some(Other(\"1.2, https://example.com/c/1\"))"),
+            ("Description: x\n", "None"),
+        ]),
+        // Author or From
+        read_row!("dep3::PatchHeader", "author", |d| patch(d)?.author(), [
+            ("Description: x\nAuthor: A <a@example.com>\n", "Some(\"A <a@example.com>\")"),
+            ("From: B <b@example.com>\nSubject: x\n", "Some(\"B <b@example.com>\")"),
+            ("Description: x\n", "None"),
+        ]),
+        read_row!("dep3::PatchHeader", "last_update", |d| patch(d)?.last_update(), [
+            ("Description: x\nLast-Update: 2006-12-21\n", "Some(2006-12-21)"),
+            ("Description: x\n", "None"),
+        ]),
+        // Bug (upstream) and Bug-<Vendor>, each possibly several times
+        read_row!("dep3::PatchHeader", "bugs", |d| patch(d)?.bugs().collect::<Vec<_>>(), [
+            ("Description: x\nBug: https://bugzilla.example.com/1\nBug-Debian: https://bugs.debian.org/2\nBug-Ubuntu: https://launchpad.net/bugs/3\nBug-Debian: https://bugs.debian.org/4\n",
+             "[(None, \"https://bugzilla.example.com/1\"), (Some(\"Debian\"), \"https://bugs.debian.org/2\"), (Some(\"Ubuntu\"), \"https://launchpad.net/bugs/3\"), (Some(\"Debian\"), \"https://bugs.debian.org/4\")]"),
+            ("Description: x\n", "[]"),
+        ]),
+        read_row!("dep3::PatchHeader", "vendor_bugs(\"Debian\")", |d| patch(d)?.vendor_bugs("Debian").collect::<Vec<_>>(), [
+            ("Description: x\nBug: https://bugzilla.example.com/1\nBug-Debian: https://bugs.debian.org/2\nBug-Ubuntu: https://launchpad.net/bugs/3\nBug-Debian: https://bugs.debian.org/4\n",
+             "[\"https://bugs.debian.org/2\", \"https://bugs.debian.org/4\"]"),
+            ("Description: x\nBug: https://bugzilla.example.com/1\n", "[]"),
+        ]),
+        // Description or Subject: first line is the short description, the rest the long one
+        read_row!("dep3::PatchHeader", "description / long_description", |d| { let h = patch(d)?; (h.description(), h.long_description()) }, [
+            ("Description: Fix the frobnicator\n", "(Some(\"Fix the frobnicator\"), Some(\"\"))"),
+            ("Description: Use FHS paths\n Upstream is not interested.\n .\n We keep it.\nAuthor: A\n", "(Some(\"Use FHS paths\"), Some(\"Upstream is not interested.\\n.\\nWe keep it.\"))"),
+            ("From: A <a@example.com>\nSubject: Fix regex problems\n more text\n", "(Some(\"Fix regex problems\"), Some(\"more text\"))"),
+            ("Author: A\n", "(None, None)"),
+        ]),
+        // DEP-3 spells the field "Reviewed-by" (alternative "Acked-by"); it may be repeated
+        read_row!("dep3::PatchHeader", "reviewed_by", |d| patch(d)?.reviewed_by(), [
+            ("Description: x\nReviewed-By: A <a@example.com>\nReviewed-By: B <b@example.com>\n", "[\"A <a@example.com>\", \"B <b@example.com>\"]"),
+            ("Description: x\n", "[]"),
+            ("Description: x\nReviewed-by: A <a@example.com>\n", "[\"A <a@example.com>\"]"),
+        ]),
+    ]
 }
